@@ -9,7 +9,7 @@
    durations; that an armed timer eventually fires and that the failure pattern
    eventually stops are the fairness premises ([In (Fire true) cont]). *)
 From Coq Require Import NArith Bool List.
-From Verif Require Import Model.Debounce Proofs.DebounceP.
+From Verif Require Import Model.Debounce Proofs.DebounceP Model.FrrMgr Proofs.FrrMgrP Proofs.FrrMgrDebP.
 Import ListNotations.
 
 (* no lost update: whenever the stored configuration is not the applied one the timer is armed *)
@@ -162,6 +162,38 @@ Theorem C19_dropping_send_loses_notification :
             dk_pending s = true /\ dk_timer s = false /\ dk_sending s = false /\ dk_out s = 0%N /\
             forall e, e <> DNotify -> dkstep true s e = None.
 Proof. exact dropping_send_loses_notification. Qed.
+
+(* ---- frr-k8s path end to end: UpdateConfig ... debouncer ... Reconcile (Model/Debounce.v (4)) ---- *)
+(* latest wins: whenever nothing is in flight the API holds the most recently submitted configuration *)
+Theorem C19_k8s_latest_wins : forall l s, rkrun rkinit l = Some s -> rk_quiet s = true ->
+  rk_api s = last_written None l /\ rk_desired s = last_written None l.
+Proof. exact rk_latest_wins. Qed.
+
+(* and from every reachable state at most five further steps, none of them a new submission, reach that *)
+Theorem C19_k8s_end_to_end_progress : forall l s, rkrun rkinit l = Some s ->
+  exists cont s', length cont <= 5 /\ (forall e, In e cont -> forall c, e <> RWrite c) /\
+                  rkrun s cont = Some s' /\ rk_quiet s' = true.
+Proof. exact rk_progress. Qed.
+
+(* ---- manager -> debouncer (Model/FrrMgr.v composed with the debouncer) ----
+   The configurations the manager submits are VALUES in the model: a submitted value cannot change
+   afterwards.  That the Go objects behave like values (no aliasing between a submitted *frrConfig
+   and the manager's later state) is NOT expressible here; it is tied by the Go oracle
+   deb-config-aliased of harness/internal/bgp/frr/zz_verif_debmgr_test.go.
+   Under that reading: the debouncer's stored configuration is always the last one the manager handed
+   on, and when no timer is armed it is the applied one ... *)
+Theorem C19_mgr_debounce_latest : forall (C : Type) (gen : list session -> list bfdprof -> string -> option C) xr (code : C -> N)
+    l st evs last sigma,
+  mevents gen xr code minit None l = (st, evs, last) -> run init evs = Some sigma ->
+  config sigma = option_map code last /\ (timer sigma = false -> applied sigma = option_map code last).
+Proof. intros C gen xr code. exact (mgr_debounce_latest gen xr code). Qed.
+
+(* ... which for FRR mode is the configuration generated from the manager's FINAL state *)
+Theorem C19_frr_mgr_latest_applied : forall (code : frr * list bfdprof * string -> N) l st evs last sigma c,
+  hist_ok gen_frr true good_frr minit (ops_of l) ->
+  mevents gen_frr true code minit None l = (st, evs, last) -> run init evs = Some sigma -> timer sigma = false ->
+  last <> None -> cfg_of gen_frr st = Some c -> applied sigma = Some (code c).
+Proof. exact frr_mgr_latest_applied. Qed.
 
 (* validateReload asks for a re-apply exactly on a new time stamp with status "failure" (= 1) *)
 Theorem C19_validate_reload : forall fields prev,
